@@ -142,6 +142,8 @@ class Machine:
                                        f"{min(i.priority for i in held)}", "C07.order/PriorityStore")
             if sum(1 for i in held if i.priority == item.priority) >= 2:
                 self.bump("equal priorities")
+            if len(held) >= 6:
+                self.bump(">=6 items held at a get")
         else:
             f = FILTERS[r.arg]
             first = next((i for i in held if f(i)), None)
@@ -378,12 +380,12 @@ def container_strategy(tier):
 def store_strategy(cls):
     def strat(tier):
         big = tier == "thorough"
-        put = st.tuples(st.just("put"), st.just(0), st.integers(0, 3)).map(list)
+        put = st.tuples(st.just("put"), st.just(0), st.integers(0, 6 if cls == "PriorityStore" else 3)).map(list)
         if cls == "FilterStore":
             get = st.tuples(st.just("get"), st.sampled_from(["any", "even", "odd", "odd", "even", "big", "none"])).map(list)
         else:
             get = st.tuples(st.just("get"), st.just(None)).map(list)
-        cmd = kgen.weighted([(put, 6), (get, 6),
+        cmd = kgen.weighted([(put, 10 if cls == "PriorityStore" else 6), (get, 6),
                              (st.tuples(st.just("cancel"), st.sampled_from(["put", "get"]), st.integers(0, 3)).map(list), 4)])
         group = kgen.weighted([
             (st.lists(cmd, min_size=1, max_size=1), 4),
@@ -391,7 +393,8 @@ def store_strategy(cls):
             (st.tuples(st.just("adv"), st.sampled_from([1, 0.5, 2])).map(list), 2),
         ])
         return st.fixed_dictionaries({
-            "cls": st.just(cls), "cap": st.sampled_from([1, 1, 2, 2, 3, 4, "inf"]), "init": st.just(0),
+            "cls": st.just(cls), "cap": st.sampled_from([1, 2, 3, 8, "inf", "inf", "inf"] if cls == "PriorityStore" else
+                                                        [1, 1, 2, 2, 3, 4, "inf"]), "init": st.just(0),
             "groups": st.lists(group, min_size=12, max_size=80 if big else 40)})
     return strat
 
@@ -416,7 +419,7 @@ PROP = Property(
         Facet("Store", store_strategy("Store"), run_case, quick=400, thorough=3000,
               essential=["blocked_then_granted", "cancel_head_with_successor"]),
         Facet("PriorityStore", store_strategy("PriorityStore"), run_case, quick=400, thorough=3000,
-              essential=["blocked_then_granted", "equal priorities"]),
+              essential=["blocked_then_granted", "equal priorities", ">=6 items held at a get"]),
         Facet("FilterStore", store_strategy("FilterStore"), run_case, quick=500, thorough=4000,
               essential=["blocked_then_granted", "filter getter overtaken", "cancel_head_with_successor"]),
     ],
